@@ -33,7 +33,7 @@ func Harness_C07_histories() {
 	for i := 0; i < n; i++ {
 		now += int64(verif_Byte()) * int64(time.Second)
 		verif_ClockSet(now)
-		switch verif_Choose(5) {
+		switch verif_Choose(6) {
 		case 0: // a transport connection arrives
 			if len(conns) >= 3 {
 				continue
@@ -89,6 +89,24 @@ func Harness_C07_histories() {
 			if c.open {
 				vsHeartbeat(sm, c.id)
 			}
+		case 5: // kick: whoever holds the client's slot is evicted in favour of a named connection
+			if len(conns) == 0 {
+				continue
+			}
+			id := clients[verif_Choose(2)]
+			k := verif_Choose(len(conns) + 1)
+			newID := "unknown-conn"
+			if k < len(conns) {
+				newID = conns[k].id
+			}
+			sm.KickOldControlConnection(id, newID)
+			for _, o := range conns {
+				if o.client == id && o.id != newID {
+					o.client = 0
+					o.open = false
+				}
+			}
+			verif_Cover("C07.kick")
 		case 4: // periodic stale-connection sweep
 			sm.cleanupStaleConnections()
 			for _, c := range conns {
